@@ -189,6 +189,60 @@ def op_line(op):
     return "op serve %d" % op[1]
 
 
+# ------------------------------------------------------------------------------------------ getfo/get lockstep
+def getfo_case(rng, tmpdir, remote, maxreq, stat_code, open_code, plan, mode):
+    """Real getfo/get (prefetch=False) against the inline server; the read handler follows ``plan``."""
+    import paramiko.sftp_file as sf
+
+    sess = L.DetSession()
+    old = sf.SFTPFile.MAX_REQUEST_SIZE
+    sf.SFTPFile.MAX_REQUEST_SIZE = maxreq
+    consumed = {"n": 0, "failed": False, "k": None}
+    try:
+        fs = sess.fs
+        fs.files["/g"] = bytearray(remote)
+
+        class Pol:
+            def read_len(self, off, length, avail):
+                k = consumed["k"] if consumed["k"] is not None else 10 ** 9
+                return max(1, min(k, min(length, avail)))
+
+        fs.policy = Pol()
+
+        def rfault(path, idx, off, length):
+            i = consumed["n"]
+            consumed["n"] += 1
+            o = plan[i] if i < len(plan) else ("d", 10 ** 9)
+            if o[0] == "f":
+                consumed["failed"] = True
+                return o[1]
+            consumed["k"] = o[1]
+            return None
+
+        fs.read_fault = rfault
+        fs.stat_fault = (lambda path: stat_code or None)
+        fs.open_fault = (lambda path, flags: open_code or None)
+        try:
+            if mode == "getfo":
+                sink = io.BytesIO()
+                sess.client.getfo("/g", sink, None, False)
+                got = sink.getvalue()
+            else:
+                lp = os.path.join(tmpdir, "g.bin")
+                if os.path.exists(lp):
+                    os.unlink(lp)
+                sess.client.get("/g", lp, None, False)
+                got = open(lp, "rb").read()
+            return "ok " + hx(got), consumed
+        except L.Hang:
+            return "hang", consumed
+        except Exception as e:
+            return "raised:" + L.exc_kind(e), consumed
+    finally:
+        sf.SFTPFile.MAX_REQUEST_SIZE = old
+        sess.close()
+
+
 # ------------------------------------------------------------------------------------------ transfers (threaded)
 def transfer_case(ctx, rng, tmpdir, size, kind, fail_at, code, confirm, use_cb, prefetch, cap, short_seed):
     """One put/putfo/get/getfo on the real server loop with one failing chunk.  Returns (desc, failure|None)."""
@@ -321,8 +375,50 @@ def run(ctx):
                 bad.add(ci)
                 ctx.disagree("lockstep:" + kind, {"case": cases[ci], "request": reqs[idx][:200]}, str(got)[:400], str(want)[:400])
 
-    # ---------------- bulk transfers on the real loop
+    # ---------------- getfo / get without prefetch: lockstep with the sequential model
     tmpdir = tempfile.mkdtemp(prefix="pv-c29-")
+    try:
+        n_get = 1500 if ctx.thorough else 260
+        greqs, gwant, gcases = [], [], []
+        for gi in range(n_get):
+            size = rng.choice([0, 1, rng.randrange(0, 40), rng.randrange(0, 1500)])
+            remote = rng.randbytes(size)
+            maxreq = rng.choice([7, 64, 32768])
+            plan = []
+            for _ in range(rng.randrange(0, 12)):
+                plan.append(("f", rng.randrange(2, 9)) if rng.random() < 0.12 else ("d", rng.choice([1, 3, 50, 10 ** 9])))
+            stat_code = rng.choice([0] * 12 + [2, 3, 4])
+            open_code = rng.choice([0] * 12 + [2, 3, 4])
+            mode = rng.choice(["getfo", "getfo", "get"])
+            res, consumed = getfo_case(rng, tmpdir, remote, maxreq, stat_code, open_code, plan, mode)
+            case = {"mode": mode, "size": size, "maxreq": maxreq, "stat": stat_code, "open": open_code,
+                    "plan": ["%s%d" % o for o in plan], "remote": hx(remote) if size <= 48 else "prng(%d)" % size}
+            ctx.case(("get", mode, hx(remote), maxreq, tuple(plan), stat_code, open_code), consumed["failed"] or size > 0)
+            ctx.dist("get:" + res.split(" ")[0].split(":")[0])
+            if gi % 60 == 0:
+                ctx.sample({"getfo": case, "result": res[:80]})
+            if res == "hang":
+                ctx.fail("transfer-hangs:" + mode, case, "reads from the wire with nothing outstanding")
+            elif res.startswith("ok"):
+                if res != "ok " + hx(remote):
+                    ctx.fail("%s-returns-ok-with-wrong-bytes" % mode, case, "local bytes differ from the remote file")
+                if consumed["failed"]:
+                    ctx.fail("%s-returns-ok-after-failed-read" % mode, case, "a read request failed, yet the call returned")
+            greqs.append("%s %s %d 32768 %d %d %s" % (mode, hx(remote), maxreq, stat_code, open_code,
+                                                      ",".join("%s%d" % o for o in plan) or "-"))
+            gwant.append(res)
+            gcases.append(case)
+        grep = ctx.driver("C29", greqs)
+        if grep is not None:
+            for rep, want, case in zip(grep, gwant, gcases):
+                if rep.startswith("raised:"):
+                    rep = "raised:" + kind_of_code(int(rep.split(":")[1]))
+                if rep != want:
+                    ctx.disagree("getfo-lockstep", case, rep[:200], want[:200])
+    finally:
+        pass
+
+    # ---------------- bulk transfers on the real loop
     try:
         n_tr = 900 if ctx.thorough else 170
         hi = (1 << 20) if ctx.thorough else (256 << 10)
@@ -353,20 +449,23 @@ def run(ctx):
 
 META = {
     "claimed": True,
-    "level": ("Proved in Lean for every program (pipelined and plain writes on any number of files, other requests, "
-              "set_pipelined, close, the server answering whenever it likes), every write-fault plan and every "
-              "chunking: the request/response bookkeeping invariant (bookkeeping_invariant); a close() that returns "
-              "normally implies no pipelined write of that file was rejected since its last exception "
-              "(rejected_pipelined_write_surfaces_by_close); no client call ever waits with nothing outstanding "
-              "(client_never_hangs); accepted writes at consecutive offsets reproduce the source "
-              "(accepted_writes_reproduce_source_partial). PARTIAL: the composition 'putfo returned normally => "
-              "destination = source' is not a single Lean theorem (the link from the client's offsets to the server's "
-              "write order is checked by the lockstep run and by the transfer oracle); reads/get are covered by C28's "
-              "reads_exact for honest servers and here by the fault-injecting oracle only."),
-    "note": ("Trusted: Lean kernel + 3 standard axioms; lockstep harness (real client code against the real "
-             "SFTPServer._process run inline, no threads); server answers every request once in order; prefetch "
-             "threads are outside this model (C28); SFTP_EOF as a *read* fault is not injected (a server that reports "
-             "EOF early is indistinguishable from a shorter file)."),
-    "technique": "Lean 4 proof (inductive invariant over a sequential client / FIFO server model) + deterministic "
-                 "inline-server lockstep correspondence + fault-injecting transfer oracle on the real server loop",
+    "level": ("Proved in Lean. put/putfo: for every program body of pipelined writes (any chunking), every write-fault "
+              "plan, any server timing, any number of other files: set_pipelined + writes + close all returned normally "
+              "=> the server's file equals the concatenation of the chunks "
+              "(putfo_normal_return_implies_destination_equals_source), composed from the bookkeeping invariant, "
+              "'a rejected pipelined write surfaces by close' and the FIFO link invariant (applied ++ unanswered = "
+              "issued, consecutive offsets). General programs: bookkeeping_invariant, "
+              "rejected_pipelined_write_surfaces_by_close, client_never_hangs. get/getfo without prefetch under read "
+              "faults and short reads: normal return => local bytes = remote bytes; a failed read / stat / open raises "
+              "(getfo_normal_return_implies_local_equals_remote, get_..., failed_read_raises, "
+              "failed_stat_or_open_raises). PARTIAL only in this: get/getfo *with* prefetching under read faults is not "
+              "in a Lean model (C28's model has an honest server); that path is covered by the fault-injecting oracle."),
+    "note": ("Trusted: Lean kernel + 3 standard axioms; lockstep harnesses (real client code against the real "
+             "SFTPServer._process run inline, no threads) for write programs and for getfo/get; server answers every "
+             "request once in order; the confirm stat of put is not in the composed theorem (it sends no write and can "
+             "only raise); SFTP_EOF as a *read* fault is not injected (a server that reports EOF early is "
+             "indistinguishable from a shorter file: get() compares the local size only with its own byte count)."),
+    "technique": "Lean 4 proof (inductive invariants over a sequential client / FIFO server model; sequential read-loop "
+                 "model) + deterministic inline-server lockstep correspondence + fault-injecting transfer oracle on the "
+                 "real server loop",
 }
